@@ -45,7 +45,7 @@ PROPS = {
         kani=_gf255_k(["k_add", "k_sub", "k_neg", "k_half"]),
         cases=_f(["add", "sub", "neg", "half", "mul", "mul2", "mul4", "mul8", "mul16", "mul32", "mulk", "mul_small", "smallmul", "mul_b127",
                   "square", "xsquare", "bits"]),
-        level_text="GF255<MQ> (64-bit limbs; instantiated as GF25519, GF255e, GF255s): add, sub, neg, half, mul2..mul32, the full 4x4-limb multiplication and the dedicated squaring with their two-step pseudo-Mersenne reduction, repeated squaring (loop invariant, any n) and every +,-,* operator impl are proved by Verus against fe(result) == op(fe(args)) mod 2^255-MQ for every limb pattern and every admissible MQ; add/sub/neg/half additionally by Kani on the full 2^512 input domain. ModInt256<M0..M3> (all scalar fields and the P-256 field; any odd modulus with a non-zero top limb): set_add (both code paths), set_sub, set_neg, set_mul2/3/4/8/16/32 proved by Verus on the internal (Montgomery) representation with the invariant value < m. make_m0i (the -1/m0 mod 2^64 Newton iteration behind every Montgomery reduction) proved for every odd m0. GFsecp256k1::set_mul and set_square (product and the two-fold 2^32+977 reduction), set_add, set_sub, set_neg proved. GF448: set_add, set_sub, set_neg proved (fe(result) == fe(a) op fe(b) mod 2^448-2^224-1 for every 448-bit limb pattern; the dropped final carries / borrows are shown to be zero). ModInt256 Montgomery reduction (set_montyred) Montgomery multiplication (set_mul, all three code paths) and squaring (set_square, both code paths) - and halving (set_half: 2*r == a or a + m, r < m, given HMP1 == (m+1)/2) - multiplication and squaring as one unit per code path, splitting the contract by the path condition on the modulus; the other branches are proved unreachable in each: result < m and result*2^256 == a*b (mod m), for every modulus, given the M0I property that make_m0i is proved to establish. The other field types and backends: executable-postcondition stand-in only.",
+        level_text="GF255<MQ> (64-bit limbs; instantiated as GF25519, GF255e, GF255s): add, sub, neg, half, mul2..mul32, the full 4x4-limb multiplication and the dedicated squaring with their two-step pseudo-Mersenne reduction, repeated squaring (loop invariant, any n) and every +,-,* operator impl are proved by Verus against fe(result) == op(fe(args)) mod 2^255-MQ for every limb pattern and every admissible MQ; add/sub/neg/half additionally by Kani on the full 2^512 input domain. ModInt256<M0..M3> (all scalar fields and the P-256 field; any odd modulus with a non-zero top limb): set_add (both code paths), set_sub, set_neg, set_mul2/3/4/8/16/32 proved by Verus on the internal (Montgomery) representation with the invariant value < m. make_m0i (the -1/m0 mod 2^64 Newton iteration behind every Montgomery reduction) proved for every odd m0. GFsecp256k1::set_mul and set_square (product and the two-fold 2^32+977 reduction), set_add, set_sub, set_neg, set_half, set_normalized, the - operator proved. GF448: set_add, set_sub, set_neg proved (fe(result) == fe(a) op fe(b) mod 2^448-2^224-1 for every 448-bit limb pattern; the dropped final carries / borrows are shown to be zero). ModInt256 Montgomery reduction (set_montyred) Montgomery multiplication (set_mul, all three code paths) and squaring (set_square, both code paths) - and halving (set_half: 2*r == a or a + m, r < m, given HMP1 == (m+1)/2) - multiplication and squaring as one unit per code path, splitting the contract by the path condition on the modulus; the other branches are proved unreachable in each: result < m and result*2^256 == a*b (mod m), for every modulus, given the M0I property that make_m0i is proved to establish. The other field types and backends: executable-postcondition stand-in only.",
         assumptions=["ModInt256::M0I is an opaque constant in the Montgomery units; its defining property (M0*M0I == -1 mod 2^64) is a precondition of set_montyred/set_mul and is what make_m0i(M0), which the source assigns to M0I, is proved to return"],
         level_note="Trusted: Verus+Z3, Kani/CBMC, the x86 add-with-carry intrinsics (assumed to behave as the portable arms that are proved), extraction transformations listed in evidence. Not reached by any contract: ModInt256, GF448, GFsecp256k1, gfgen, binary fields, 32-bit/51-bit/clmul backends.",
         not_reached=["ModInt256 set_montylin / set_div (stand-in only); make_hmp1 is a declared contract (its nested helper fn cannot be given a contract by the weaver)", "GF448", "GFsecp256k1", "define_gfgen! (ed448 scalar)", "GFb127/GFb254",
@@ -74,7 +74,7 @@ PROPS = {
     ),
     "C05": dict(
         title="Field and scalar encodings are canonical; decoding is strict",
-        verus=[("gf255_m64_lin", None, "quick"), ("modint_codec", 60, "quick"), ("modint_monty", 120, "quick", (), 400),
+        verus=[("gf255_m64_lin", None, "quick"), ("gfsecp256k1_lin", 100, "quick"), ("modint_codec", 60, "quick"), ("modint_monty", 120, "quick", (), 400),
                ("modint_mul_p1", 120, "quick", (), 400), ("modint_mul_p2", 120, "quick", (), 400), ("modint_mul_p3", 120, "quick", (), 400)],
         kani=_gf255_k(["k_normalized_encode", "k_decode_ct32", "k_decode_ct_badlen", "k_decode_reduce32"]),
         cases=_f(["encode", "encode_alias", "decode_ct", "decode_opt", "decode_reduce", "roundtrip", "from_int", "from_w64"]),
@@ -230,10 +230,10 @@ PROPS = {
     "C20": dict(
         title="Masked selection primitives select exactly as their control word says",
         verus=[("gf255_m64_lin", None, "quick"), ("gf255_m64_lookup", None, "quick"), ("modint_lin", 60, "quick"),
-               ("ed25519_law", None, "quick"), ("gf255_m64_ops", None, "quick"), ("cond_ops_other", None, "quick"), ("jq255e_law", None, "quick"), ("jq255s_law", None, "quick")],
+               ("ed25519_law", None, "quick"), ("gf255_m64_ops", None, "quick"), ("cond_ops_other", None, "quick"), ("gfsecp256k1_lin", 100, "quick"), ("jq255e_law", None, "quick"), ("jq255s_law", None, "quick")],
         kani=_gf255_k(["k_iszero_equals", "k_cond_select_cswap"]) + _gf255_k(["k_lookup16", "k_lookup16_x4"], quick_fields=()),
         cases=_f(["cond", "select", "cswap", "equals", "iszero", "lookup16_x3", "lookup16_x4", "lookup"]),
-        level_text="GF448 and GFsecp256k1: set_cond, select, cswap proved by Verus at limb level (unchanged for ctl 0, full copy / exchange for 0xFFFFFFFF). jq255e / jq255s points: set_cond, select, set_condneg. GF255<MQ>: set_cond, select, cswap (exact copies/swaps for ctl in {0,0xFFFFFFFF}, whole-struct frames), iszero and equals (0xFFFFFFFF iff values equal mod q, for all three representations of zero), lookup16_x3/x4 (exact entry for j<16, zeros for every other u32) proved by Verus; the same by Kani on the full domain. Other field types and point-level selection/lookups: stand-in only.",
+        level_text="GFsecp256k1 iszero / equals (all-ones exactly when the values are equal mod q, for both representations of zero). GF448 and GFsecp256k1: set_cond, select, cswap proved by Verus at limb level (unchanged for ctl 0, full copy / exchange for 0xFFFFFFFF). jq255e / jq255s points: set_cond, select, set_condneg. GF255<MQ>: set_cond, select, cswap (exact copies/swaps for ctl in {0,0xFFFFFFFF}, whole-struct frames), iszero and equals (0xFFFFFFFF iff values equal mod q, for all three representations of zero), lookup16_x3/x4 (exact entry for j<16, zeros for every other u32) proved by Verus; the same by Kani on the full domain. Other field types and point-level selection/lookups: stand-in only.",
         level_note="AVX2 lookup arms not reached (intrinsics).",
         not_reached=["point-level operations of ed448, p256, secp256k1, gls254", "iszero / equals of GF448, GFsecp256k1, gfgen, binary fields", "AVX2 lookup paths"],
     ),
